@@ -15,7 +15,7 @@ RULE = (
 )
 ASSUMPTIONS = [
     "hash_sha256 o json.dumps is injective on the hashed dictionaries (equality of Resources = equality of keys)",
-    "strip_punct(antecedent) enters the model as a value computed by the implementation (oracle field)",
+    "strip_punct(antecedent) is computed by the model (Model/StripPunct.v on the regenerated re.sub chain) inside the kernel for every correspondence case; the model is compared with eyecite.utils.strip_punct in C07's strip-punct stream",
 ]
 
 
